@@ -1960,6 +1960,7 @@ class Processor:
                 yield NodeCoords(
                     data, parent, parentref, translated_path, ancestry,
                     peekseg)
+                break # because the caller re-applies the next segment
 
             # Then, recurse into each child to perform the same test.
             if isinstance(data, dict):
